@@ -30,6 +30,17 @@ assert uberjob.__file__.startswith(os.environ.get("VERIF_SRC", "/repo/src")), ub
 
 TWIN = os.environ.get("XH_TWIN") == "1"
 
+try:  # CrossHair 0.0.110 turns functools.lru_cache into a no-op under tracing (so that symbolic arguments are not hashed).  In these
+    # harnesses everything uberjob could memoise is keyed by concrete objects (functions, classes, nodes), and a memo that should not
+    # be there is exactly the kind of defect to be found: restore the real behaviour.
+    import crosshair.core_and_libs  # noqa: F401
+    from crosshair import core as _xc
+    from functools import _lru_cache_wrapper
+
+    _xc._PATCH_REGISTRATIONS.pop(_lru_cache_wrapper.__call__, None)
+except Exception:  # crosshair not importable: plain concrete run
+    pass
+
 
 class _Null:
     def __enter__(self):
@@ -228,7 +239,7 @@ class LStore(uberjob.ValueStore):
         return T(self.t) if self.present else None
 
     def __repr__(self):
-        return f"LStore({self.name})"
+        return "LStore()"  # deliberately the same for every store: a repr is not an identity
 
 
 def mk_fn(name, world, side_effect=None):
@@ -252,8 +263,10 @@ class Shape:
     A 'src' with incoming 'd' edges is a dependent source: its generator is the (single) predecessor call, whose
     function rewrites the source store as a side effect."""
 
-    def __init__(self, name, n, edges, roles, out):
+    def __init__(self, name, n, edges, roles, out, order=None):
         self.name, self.n, self.edges, self.roles, self.out = name, n, [tuple(e) for e in edges], list(roles), out
+        # creation (= registration) order of the nodes; default: index order.  Only add_dependency edges may point "backwards" in it.
+        self.order = list(order) if order else list(range(n))
         self.preds = {j: [(i, k) for (i, jj, k) in self.edges if jj == j] for j in range(n)}
         self.succs = {i: [(j, k) for (ii, j, k) in self.edges if ii == i] for i in range(n)}
         self.registered = [r in ("store", "src", "slit") for r in roles]
@@ -276,12 +289,12 @@ class Shape:
         return sorted(out)
 
     def to_json(self):
-        return {"name": self.name, "n": self.n, "edges": self.edges, "roles": self.roles, "out": self.out}
+        return {"name": self.name, "n": self.n, "edges": self.edges, "roles": self.roles, "out": self.out, "order": self.order}
 
 
 def shape_from_env():
     d = json.loads(os.environ["XH_SHAPE"])
-    return Shape(d["name"], d["n"], d["edges"], d["roles"], d["out"])
+    return Shape(d["name"], d["n"], d["edges"], d["roles"], d["out"], d.get("order"))
 
 
 class Built:
@@ -293,7 +306,7 @@ def build(shape, world, P, TT, K=None, normalise=False):
     K[j]: stored value of a non-source store is the from-scratch value (else a garbage term)."""
     b = Built()
     b.plan, b.reg = uberjob.Plan(), uberjob.Registry()
-    b.nodes, b.stores, b.scratch = [], [], []
+    b.nodes, b.stores, b.scratch = [None] * shape.n, [None] * shape.n, [None] * shape.n
     gens = {}  # dependent source index -> generator call (first predecessor; through a chain of dependent sources: their generator)
     for j in range(shape.n):
         if shape.roles[j] == "src" and shape.preds[j]:
@@ -302,7 +315,7 @@ def build(shape, world, P, TT, K=None, normalise=False):
     genby = {}  # generator call -> the dependent sources it rewrites, in index order
     for s_, g_ in sorted(gens.items()):
         genby.setdefault(g_, []).append(s_)
-    for j in range(shape.n):
+    for j in shape.order:  # creation = registration order
         role = shape.roles[j]
         args = [i for i, k in shape.preds[j] if k == "a"]
         if role == "src":
@@ -312,7 +325,7 @@ def build(shape, world, P, TT, K=None, normalise=False):
                 sv = ("srcval", j)
             st = LStore(j, P[j], TT[j], sv if (K is None or K[j] or j not in gens) else ("garbage", j), world, normalise)
             node = b.reg.source(b.plan, st)
-            b.scratch.append(("norm", sv) if normalise else sv)
+            b.scratch[j] = ("norm", sv) if normalise else sv
         elif role in ("lit", "slit"):
             sv = ("litval", j)
             node = b.plan.lit(sv)
@@ -320,11 +333,11 @@ def build(shape, world, P, TT, K=None, normalise=False):
             if role == "slit":
                 st = LStore(j, P[j], TT[j], sv if (K is None or K[j]) else ("garbage", j), world, normalise)
                 b.reg.add(node, st)
-                b.scratch.append(("norm", sv) if normalise else sv)
+                b.scratch[j] = ("norm", sv) if normalise else sv
             else:
-                b.scratch.append(sv)
-            b.nodes.append(node)
-            b.stores.append(st)
+                b.scratch[j] = sv
+            b.nodes[j] = node
+            b.stores[j] = st
             continue
         else:
             argvals = tuple(b.scratch[i] for i in args)
@@ -344,11 +357,11 @@ def build(shape, world, P, TT, K=None, normalise=False):
             if role == "store":
                 st = LStore(j, P[j], TT[j], sv if (K is None or K[j]) else ("garbage", j), world, normalise)
                 b.reg.add(node, st)
-                b.scratch.append(("norm", sv) if normalise else sv)
+                b.scratch[j] = ("norm", sv) if normalise else sv
             else:
-                b.scratch.append(sv)
-        b.nodes.append(node)
-        b.stores.append(st)
+                b.scratch[j] = sv
+        b.nodes[j] = node
+        b.stores[j] = st
     for (i, j, k) in shape.edges:
         if k == "d":
             b.plan.add_dependency(b.nodes[i], b.nodes[j])
